@@ -4,6 +4,8 @@ ID=$1; PROP=$2; TIER=${3:-quick}
 cd /repo || exit 2
 git diff --quiet || { echo "/repo has uncommitted changes"; exit 2; }
 git apply /verif/seeded/$ID/patch.diff || { echo "patch does not apply"; exit 2; }
-cd /verif; python3 check.py $PROP --tier $TIER > /verif/work/logs/seeded_${ID}_${PROP}.log 2>&1; rc=$?
+cd /verif; cp evidence/$PROP.json /verif/work/evidence_$PROP.keep 2>/dev/null
+python3 check.py $PROP --tier $TIER > /verif/work/logs/seeded_${ID}_${PROP}.log 2>&1; rc=$?
+cp evidence/$PROP.json /verif/work/logs/seeded_${ID}_${PROP}.evidence.json 2>/dev/null; [ -f /verif/work/evidence_$PROP.keep ] && mv /verif/work/evidence_$PROP.keep evidence/$PROP.json
 git -C /repo checkout -- .
 echo "seeded $ID on $PROP/$TIER: exit=$rc"; grep -E "^VIOLATION|^  \[" /verif/work/logs/seeded_${ID}_${PROP}.log | head -${4:-8}; tail -n 1 /verif/work/logs/seeded_${ID}_${PROP}.log
